@@ -13,8 +13,12 @@ from coqemit import cZ, cbool, clist, cstr
 ENUMS = {"Color": ["RED", "GREEN", "BLUE"], "Mode": ["fast", "slow"], "Lvl": ["A", "B", "C", "D"],
          # an IntEnum and a str-mixin Enum, each with a FALSY member: their members are ints / strs, which argparse and the
          # library's truthiness tests treat differently from plain Enum members (defects repaired by e04e845 / e9c428e)
-         "Pri": ["ZERO", "LOW", "HIGH"], "Tag": ["EMPTY", "A", "B"]}
-ENUM_BASES = {"Pri": ("IntEnum", ["0", "1", "3"]), "Tag": ("str, Enum", ["''", "'a'", "'b'"])}
+         "Pri": ["ZERO", "LOW", "HIGH"], "Tag": ["EMPTY", "A", "B"],
+         # a plain Enum whose VALUES are the NAMES of other members: a lookup by value instead of by name (seeded change
+         # C02-06) silently yields the wrong member
+         "Tog": ["ON", "OFF", "MID"]}
+ENUM_BASES = {"Pri": ("IntEnum", ["0", "1", "3"]), "Tag": ("str, Enum", ["''", "'a'", "'b'"]),
+              "Tog": ("Enum", ["'OFF'", "'MID'", "'ON'"])}
 
 
 # ---- types ------------------------------------------------------------------------------------------
